@@ -102,6 +102,10 @@ type Case struct {
 	Cold    Tier `json:"cold"`               // no shards: no long-term tier
 	HotRead bool `json:"hot_read,omitempty"` // hot tier configured as HotReadStores
 	Hints   bool `json:"hints,omitempty"`    // stores return fraction hints with the IDs, as real stores do
+	// Shuffle: Config.ShuffleReplicas (--shuffle-replicas): the replicas of a shard are asked in
+	// a random order (global math/rand source).  The oracle then uses the order in which the
+	// fakes saw the Search calls; replicas never asked count as asked last.
+	Shuffle bool `json:"shuffle,omitempty"`
 	Docs    bool `json:"docs,omitempty"`     // operation: false Search, true Documents (the Fetch API)
 
 	Q         *model.Q `json:"q"`
@@ -222,6 +226,7 @@ func genCase(t *rapid.T) Case {
 	}
 	c.HotRead = rapid.IntRange(0, 5).Draw(t, "hot_read") == 5
 	c.Hints = rapid.Bool().Draw(t, "hints")
+	c.Shuffle = rapid.IntRange(0, 2).Draw(t, "shuffle") == 2
 	okPct := []int{90, 70, 50, 30}[rapid.IntRange(0, 3).Draw(t, "failrate")]
 	ffp := []int{0, 25, 50, 80}[rapid.IntRange(0, 3).Draw(t, "fetchfaults")]
 	c.Hot.Hosts = genTier(t, hs, hr, okPct, mode, ffp)
@@ -363,6 +368,7 @@ type world struct {
 	fetches []*fetchLog
 	mangled string // a Search request that does not carry the case's query text
 	foreign int
+	asked   [][3]int // Search calls in arrival order: tier, shard, replica
 }
 
 type fake struct {
@@ -382,6 +388,9 @@ func (f *fake) Search(ctx context.Context, in *storeapi.SearchRequest, _ ...grpc
 	if ctx.Err() != nil {
 		return nil, status.FromContextError(ctx.Err()).Err()
 	}
+	f.w.mu.Lock()
+	f.w.asked = append(f.w.asked, [3]int{f.tier, f.shard, f.rep})
+	f.w.mu.Unlock()
 	switch f.h.S {
 	case sErr:
 		return nil, status.Error(codes.Unavailable, "scripted failure of "+f.name)
@@ -621,8 +630,32 @@ const (
 	kTooManyUniq
 )
 
-func simShard(hosts []Host) shardSim {
-	for r, h := range hosts {
+// replicaOrder: the order in which the replicas of a shard count as asked - configured
+// order, or with shuffled replicas the observed one followed by the replicas never asked.
+func replicaOrder(c *Case, w *world, ti, s, n int) []int {
+	var order []int
+	seen := make([]bool, n)
+	if c.Shuffle && w != nil {
+		w.mu.Lock()
+		for _, a := range w.asked {
+			if a[0] == ti && a[1] == s && !seen[a[2]] {
+				seen[a[2]] = true
+				order = append(order, a[2])
+			}
+		}
+		w.mu.Unlock()
+	}
+	for r := 0; r < n; r++ {
+		if !seen[r] {
+			order = append(order, r)
+		}
+	}
+	return order
+}
+
+func simShard(hosts []Host, order []int) shardSim {
+	for _, r := range order {
+		h := hosts[r]
 		switch h.S {
 		case sOK:
 			return shardSim{kAnswered, r}
@@ -650,11 +683,11 @@ type outcome struct {
 
 // tierOutcomes lists what a search over one tier may legitimately produce.  wantsOld is
 // reported separately because the caller decides what follows from it.
-func tierOutcomes(ti int, t *Tier) (outs []outcome, wantsOld bool, sims []shardSim) {
+func tierOutcomes(c *Case, w *world, ti int, t *Tier) (outs []outcome, wantsOld bool, sims []shardSim) {
 	var answering []int
 	frac := false
 	for s := range t.Hosts {
-		sim := simShard(t.Hosts[s])
+		sim := simShard(t.Hosts[s], replicaOrder(c, w, ti, s, len(t.Hosts[s])))
 		sims = append(sims, sim)
 		switch sim.kind {
 		case kAnswered:
@@ -684,15 +717,15 @@ func tierOutcomes(ti int, t *Tier) (outs []outcome, wantsOld bool, sims []shardS
 	return append(outs, o), false, sims
 }
 
-func admissible(c *Case) ([]outcome, [2][]shardSim) {
+func admissible(c *Case, w *world) ([]outcome, [2][]shardSim) {
 	var sims [2][]shardSim
-	outs, wants, hs := tierOutcomes(0, &c.Hot)
+	outs, wants, hs := tierOutcomes(c, w, 0, &c.Hot)
 	sims[0] = hs
 	if wants {
 		if len(c.Cold.Hosts) == 0 {
 			outs = append(outs, outcome{name: "fatal:wants_old_no_cold_tier", fatal: true, errIs: consts.ErrIngestorQueryWantsOldData})
 		} else {
-			co, cw, cs := tierOutcomes(1, &c.Cold)
+			co, cw, cs := tierOutcomes(c, w, 1, &c.Cold)
 			sims[1] = cs
 			if cw {
 				co = append(co, outcome{name: "fatal:cold_wants_old", fatal: true, errIs: consts.ErrIngestorQueryWantsOldData})
@@ -826,7 +859,7 @@ func runCase(c Case) (evid.Result, error) {
 	}
 	cfg := search.Config{
 		HotStores: tiers[0], HotReadStores: &stores.Stores{Shards: [][]string{}}, ReadStores: tiers[1], WriteStores: tiers[1],
-		ShuffleReplicas: false,
+		ShuffleReplicas: c.Shuffle,
 	}
 	if c.HotRead {
 		cfg.HotStores, cfg.HotReadStores = &stores.Stores{Shards: [][]string{}}, tiers[0]
@@ -842,6 +875,9 @@ func runCase(c Case) (evid.Result, error) {
 	}
 	if c.Hints {
 		labels["store_hints"] = true
+	}
+	if c.Shuffle {
+		labels["shuffled_replicas"] = true
 	}
 	if overlap {
 		labels["doc_on_two_hot_shards"] = true
@@ -998,7 +1034,7 @@ func runSearch(c *Case, w *world, ing *search.Ingestor, bodies map[model.ID][]by
 	if err != nil {
 		_ = err.Error() // what the API layer does with it; must not panic
 	}
-	outs, sims := admissible(c)
+	outs, sims := admissible(c, w)
 	var names []string
 	for _, o := range outs {
 		names = append(names, o.name)
@@ -1131,6 +1167,33 @@ func runSearch(c *Case, w *world, ing *search.Ingestor, bodies map[model.ID][]by
 			}
 			if e := checkDoc(c, i, id, d.Data, bodies, who, labels, hintedUnexpected); e != nil {
 				return false, e
+			}
+			// "its store" is the replica that returned the ID: an empty document is not excused
+			// by the inability of some other replica when the one that answered the search was
+			// never asked for it and delivers whatever it is asked for
+			if len(d.Data) == 0 && bodies[id] != nil {
+				var holders []int
+				for _, s := range match.shards {
+					for _, dd := range c.tier(match.tier).Corpora[s] {
+						if dd.ID == id {
+							holders = append(holders, s)
+							break
+						}
+					}
+				}
+				if len(holders) == 1 {
+					s, r := holders[0], sims[match.tier][holders[0]].replica
+					askedIt := false
+					for _, a := range who {
+						if a.l.tier == match.tier && a.l.shard == s && a.l.rep == r {
+							askedIt = true
+						}
+					}
+					if !askedIt && c.tier(match.tier).Hosts[s][r].F == fOK {
+						return false, evid.Failf("document_not_requested_from_its_store", "position %d: ID %s was returned by %s, which delivers every document it is asked for, but its document was requested only from %s and came back empty",
+							i, fmtIDs([]model.ID{id}), hostName(match.tier, s, r), hostName(who[0].l.tier, who[0].l.shard, who[0].l.rep))
+					}
+				}
 			}
 		}
 	}
